@@ -131,10 +131,14 @@ class Normaliser(ast.NodeTransformer):
             (isinstance(e, ast.Call) and isinstance(e.func, ast.Name) and e.func.id in ('isinstance', 'issubclass', 'bool', 'any', 'all',
                                                                                        'hasattr', 'callable'))
 
+    def visit_SetComp(self, node):
+        self.generic_visit(node)
+        # N19: a set comprehension is set(<generator expression>)
+        return loc(ast.Call(func=loc(ast.Name(id='set', ctx=ast.Load()), node),
+                            args=[loc(ast.GeneratorExp(elt=node.elt, generators=node.generators), node)], keywords=[]), node)
+
     def visit_BoolOp(self, node):
         self.generic_visit(node)
-        if not self._value_used(node):
-            pass
         # flatten nested same-operator chains: (a and b) and c
         vals = []
         for v in node.values:
